@@ -147,7 +147,25 @@ def _run_verus_unit(unit, work, seed=None):
         r2.pop('unsupported_fns', None)
         r2.pop('uncompilable_fns', None)
         r2['rlimit_retry'] = True
+        rf = set(r2.pop('resource_fns', [])) - force
+        res = [t for t in r2.get('tool_errors', []) if t.startswith('resource:') and 'time limit' not in t]
+        if os.environ.get('VERIF_DEBUG_RLIMIT'):
+            print('  [debug] rlimit retry: fns', sorted(rf), 'resource errors', len(res), 'tool errors', r2.get('tool_errors', []))
+        if rf and res and len(res) == len(r2.get('tool_errors', [])) and len(rf) <= 3:
+            # still out of budget, and the budget ran out inside known source functions (typically a caller of a new helper that
+            # has no contract: the solver searches for a proof that cannot exist): those bodies are skipped like any body the
+            # verifier cannot take -- contract kept for the callers, the function UNDECIDED (only a natively replayed counterexample
+            # may raise an alarm, a covering finder may stand in as a labelled bounded check, otherwise exit 2). Never on the unchanged tree.
+            r3 = run_verus_unit_once(unit, work, seed, force | rf, dropb=dropb)
+            r3.pop('unsupported_fns', None)
+            r3.pop('uncompilable_fns', None)
+            r3.pop('resource_fns', None)
+            if not any(t.startswith('resource:') for t in r3.get('tool_errors', [])):
+                r3['rlimit_retry'] = True
+                r3['rlimit_skipped_bodies'] = sorted(rf)
+                return r3
         return r2
+    r.pop('resource_fns', None)
     return r
 
 
@@ -208,6 +226,7 @@ def run_verus_unit_once(unit, work, seed, force, rlimit=None, dropb=None):
     tool_errors = []
     unsupported_fns = []
     uncompilable_fns = []
+    resource_fns = []
     for d in diags:
         msg = d['message']
         kind = None
@@ -217,6 +236,13 @@ def run_verus_unit_once(unit, work, seed, force, rlimit=None, dropb=None):
                 break
         if any(re.search(p, msg) for p in INCONCLUSIVE_PATTERNS):
             tool_errors.append("resource: " + msg)
+            for sp in d['spans']:
+                idx = sp['line_start'] - 1
+                # the span of "function body check" is the signature line (a generated line): the function is the one the next lines belong to
+                for li in range(max(idx, 0), min(idx + 40, len(linemap))):
+                    if linemap[li].get('fn'):
+                        resource_fns.append(linemap[li]['fn'])
+                        break
             continue
         if kind is None or d.get('code'):
             # unsupported construct inside a source function: retry with that body skipped
@@ -310,7 +336,7 @@ def run_verus_unit_once(unit, work, seed, force, rlimit=None, dropb=None):
                                    rlimit=fb['rlimit'], success=fb['success']))
     except Exception:
         pass
-    return dict(unsupported_fns=unsupported_fns, uncompilable_fns=uncompilable_fns, unit=unit, verified=vr.get('verified', 0), errors=vr.get('errors', 0), failures=failures,
+    return dict(unsupported_fns=unsupported_fns, uncompilable_fns=uncompilable_fns, resource_fns=resource_fns, unit=unit, verified=vr.get('verified', 0), errors=vr.get('errors', 0), failures=failures,
                 tool_errors=tool_errors, fstats=fstats, meta=meta, wall_s=round(time.time() - t0, 2),
                 smt_ms=j.get('times-ms', {}).get('smt', {}).get('smt-run', 0), cmd=' '.join(cmd[:1] + ['<unit>.rs'] + cmd[2:]),
                 rs=out_rs)
